@@ -16,15 +16,14 @@ from vlib import hxl
 
 ID = 'C07'
 COMPONENTS = ['objects']
-THEOREMS_FINAL = ['C07_extend_assoc', 'C07_extend_empty_r', 'C07_extend_empty_l',
+THEOREMS = ['C07_extend_assoc', 'C07_extend_empty_r', 'C07_extend_empty_l',
             'C07_find_field_spec', 'C07_find_field_found', 'C07_no_panic_no_fuel',
-            'C07_super_starts_left', 'C07_self_is_final',
+            'C07_super_starts_left', 'C07_extend_super_of_left', 'C07_self_is_final', 'C07_self_sees_override',
             'C07_visibility_rule', 'C07_default_override_keeps_inherited',
-            'C07_fields_order_sorted_nodup', 'C07_fields_order_agree', 'C07_fields_order_agree_visible',
-            'C07_observers_agree', 'C07_remove_key_exact', 'C07_remove_key_order',
-            'C07_remove_then_extend', 'C07_extend_then_remove_hides_only_inner',
-            'C07_nonvacuous', 'C07_prefix_defect_witness']
-THEOREMS = ['C07_extend_assoc', 'C07_fields_order_agree_visible_refuted']   # stage 1 (tree as found)
+            'C07_fields_order_sorted_nodup', 'C07_fields_order_entry', 'C07_fields_order_agree',
+            'C07_fields_order_agree_visible', 'C07_observers_agree',
+            'C07_remove_key_exact', 'C07_remove_key_order', 'C07_remove_then_extend',
+            'C07_extend_then_remove_hides_only_inner', 'C07_nonvacuous', 'C07_prefix_defect_witness']
 ALLOWED_AXIOMS = set()
 TRANSLATORS = []
 
@@ -130,14 +129,6 @@ def names_per_layer(e, acc):
         names_per_layer(e[2], acc)
     elif k == 'N':
         names_per_layer(e[1], acc)
-    return acc
-
-
-def kinds_of(e, acc):
-    acc.add(e[0])
-    for x in e[1:]:
-        if isinstance(x, list) and x and isinstance(x[0], str) and x[0] in 'LPRMNG' and len(x[0]) == 1 and e[0] != 'L':
-            kinds_of(x, acc)
     return acc
 
 
@@ -301,6 +292,14 @@ def combine(t, texts):
     return '(%s + %s)' % (combine(t[0], texts), combine(t[1], texts))
 
 
+def prelude(names):
+    """every name of the alphabet (and the probes) occurs as a literal field name, hence is interned at
+    parse time: the evaluator short-cuts on names that are not interned anywhere in the program
+    (std.objectRemoveKey returns its argument, super[e] reports an unknown field before looking for
+    a super object); the model describes the interned case"""
+    return 'local names_ = { %s }; ' % ', '.join('%s: 0' % jstr(n) for n in list(names) + [PROBE1, PROBE2])
+
+
 def observer_programs(otext, names):
     """the Jsonnet programs observing the object expression [otext]"""
     q = [jstr(n) for n in names]
@@ -387,9 +386,10 @@ class Batch:
         self.impl_exe = impl_exe
         self.progs = []       # (id, text)
         self.res = {}
+        self.prelude = ''
 
     def add(self, pid, text):
-        self.progs.append((pid, text))
+        self.progs.append((pid, self.prelude + text))
 
     def run(self):
         lines = ['%s\teval\t\t%s' % (pid, hxl(list(t.encode('utf-8')))) for pid, t in self.progs]
@@ -418,6 +418,7 @@ def run_chains(run, cases, impl_exe, model_exe, tier, label):
     for c in cases:
         cid, names, atoms = c['id'], c['names'], c['atoms']
         rr = random.Random('%s/render' % c['rseed'])
+        B.prelude = prelude(names)
         texts = [render_expr(rr, a) for a in atoms]
         k = len(atoms)
         main = combine(c['tree'], texts)
